@@ -1070,9 +1070,11 @@ class Generator:
     def no_identify(self, func: t.Callable[..., str], *args, **kwargs) -> str:
         original = self.identify
         self.identify = False
-        result = func(*args, **kwargs)
-        self.identify = original
-        return result
+        try:
+            return func(*args, **kwargs)
+        finally:
+            # also on an UnsupportedError raised under ErrorLevel.IMMEDIATE: a reused Generator must keep its setting
+            self.identify = original
 
     def normalize_func(self, name: str) -> str:
         if self.normalize_functions == "upper" or self.normalize_functions is True:
